@@ -378,6 +378,43 @@ func (r *rw) exprs(n ast.Node) {
 				ce.Fun = vs("Close")
 				stats["close"]++
 			}
+			// make(chan T) / make(chan T, 0): an unbuffered channel (see vsync.MakeSync)
+			if id, ok := ce.Fun.(*ast.Ident); ok && id.Name == "make" && id.Obj == nil && len(ce.Args) >= 1 {
+				if ct, ok := ce.Args[0].(*ast.ChanType); ok {
+					zero := len(ce.Args) == 1
+					if len(ce.Args) == 2 {
+						if bl, ok := ce.Args[1].(*ast.BasicLit); ok && bl.Value == "0" {
+							zero = true
+						}
+					}
+					if zero {
+						r.needVS = true
+						stats["makesync"]++
+						nid := ast.NewIdent("vsn")
+						inner := &ast.CallExpr{Fun: ast.NewIdent("make"), Args: []ast.Expr{ct, nid}}
+						fl := &ast.FuncLit{
+							Type: &ast.FuncType{Params: &ast.FieldList{List: []*ast.Field{{Names: []*ast.Ident{nid}, Type: ast.NewIdent("int")}}}, Results: &ast.FieldList{List: []*ast.Field{{Type: &ast.InterfaceType{Methods: &ast.FieldList{}}}}}},
+							Body: &ast.BlockStmt{List: []ast.Stmt{&ast.ReturnStmt{Results: []ast.Expr{inner}}}},
+						}
+						// func() chan T { return __vs.MakeSync(func(vsn int) interface{} { return make(chan T, vsn) }).(chan T) }()
+						outer := &ast.FuncLit{
+							Type: &ast.FuncType{Params: &ast.FieldList{}, Results: &ast.FieldList{List: []*ast.Field{{Type: ct}}}},
+							Body: &ast.BlockStmt{List: []ast.Stmt{&ast.ReturnStmt{Results: []ast.Expr{&ast.TypeAssertExpr{X: call(vs("MakeSync"), fl), Type: ct}}}}},
+						}
+						ce.Fun = outer
+						ce.Args = nil
+						return false
+					}
+				}
+			}
+			// runtime.SetFinalizer: finalizers run as controlled threads (see vsync.SetFinalizer)
+			if se, ok := ce.Fun.(*ast.SelectorExpr); ok && se.Sel.Name == "SetFinalizer" {
+				if pk, ok := se.X.(*ast.Ident); ok && pk.Name == "runtime" && pk.Obj == nil {
+					r.needVS = true
+					stats["setfinalizer"]++
+					ce.Fun = vs("SetFinalizer")
+				}
+			}
 		}
 		return true
 	})
@@ -785,7 +822,7 @@ func (r *rw) stmt(s ast.Stmt) []ast.Stmt {
 		stats["send"]++
 		r.exprs(x)
 		r.noRecv(x, "a send statement")
-		return []ast.Stmt{&ast.ExprStmt{X: call(vs("WaitSend"), x.Chan)}, x}
+		return []ast.Stmt{&ast.ExprStmt{X: call(vs("WaitSend"), x.Chan)}, x, &ast.ExprStmt{X: call(vs("AfterSend"), x.Chan)}}
 	case *ast.SelectStmt:
 		r.needVS = true
 		stats["select"]++
